@@ -763,6 +763,30 @@ fn mode_intern(f: &[&str]) -> String {
                     eqbad += 1;
                 }
             }
+            // the comparing lookups: eq / eq_some of a text against a handle say whether the handle was made from it
+            let n = issued_texts.len();
+            for k in 0..n {
+                let mut js: Vec<usize> = if n <= 48 { (0..n).collect() } else { vec![0, n - 1, k, (k + 1) % n, (k + n - 1) % n, (k * 7 + 3) % n] };
+                js.dedup();
+                for j in js {
+                    let t = &issued_texts[j];
+                    let want = issued_texts[k] == *t;
+                    let (e, es) = match kind {
+                        "bytes" => (bi.eq(t, hb[k]), want),
+                        "str" => {
+                            let st = std::str::from_utf8(t).unwrap();
+                            (si.eq(st, hs[k]), si.eq_some(st, hs[k]))
+                        }
+                        _ => {
+                            let pa = Path::new(<std::ffi::OsStr as std::os::unix::ffi::OsStrExt>::from_bytes(t));
+                            (pi.eq(pa, hp[k]), pi.eq_some(pa, hp[k]))
+                        }
+                    };
+                    if e != Some(want) || es != want {
+                        eqbad += 1;
+                    }
+                }
+            }
             let caps: Vec<String> = bufs.iter().map(|(_, c, l)| format!("{c}/{l}")).collect();
             out.push(format!(
                 "IDS {} MOVED {} LOST {} STALE {} NBUF {} LOCS {} CAPS {}",
@@ -782,6 +806,7 @@ fn mode_intern(f: &[&str]) -> String {
             let mut issued: Vec<(Vec<(u32, u32)>, (usize, usize))> = Vec::new();
             let mut ids: Vec<usize> = Vec::new();
             let mut bad = 0usize;
+            let mut handles: Vec<(az65::intern::MetaRef, Vec<(u32, u32)>, Vec<[StrRef; 2]>)> = Vec::new();
             for op in f[1].split(',') {
                 if op.is_empty() {
                     continue;
@@ -797,9 +822,31 @@ fn mode_intern(f: &[&str]) -> String {
                         refs.push([si.intern(format!("s{k}")), si.intern(format!("s{v}"))]);
                     }
                 }
-                let h = mi.intern(&refs).verif_raw();
+                let handle = mi.intern(&refs);
+                let h = handle.verif_raw();
                 let mut sorted = pairs.clone();
                 sorted.sort();
+                // handle equality is set equality; every earlier handle still resolves to its own set, and the comparing
+                // lookups agree, whatever order the pairs are presented in
+                for (old_h, old_sorted, old_refs) in handles.iter() {
+                    let same = *old_sorted == sorted;
+                    if (*old_h == handle) != same {
+                        bad += 1;
+                    }
+                    let mut rev: Vec<[StrRef; 2]> = refs.clone();
+                    rev.reverse();
+                    if mi.eq(&rev, *old_h) != Some(same) || mi.eq_some(&refs, *old_h) != same {
+                        bad += 1;
+                    }
+                    let mut got: Vec<[StrRef; 2]> = mi.get(*old_h).map(|x| x.to_vec()).unwrap_or_default();
+                    let mut exp: Vec<[StrRef; 2]> = old_refs.clone();
+                    got.sort();
+                    exp.sort();
+                    if got != exp {
+                        bad += 1;
+                    }
+                }
+                handles.push((handle, sorted.clone(), refs.clone()));
                 let mut id = issued.len();
                 for (k, (p, r)) in issued.iter().enumerate() {
                     if *p == sorted {
